@@ -1,5 +1,5 @@
 CONSTANTS
-  Families = {"basis", "rotto", "rotax", "rotq", "trs", "mesh"}
+  Families = {"basis", "rotto", "rotnear", "rotax", "rotq", "trs", "mesh"}
   WordLen = 2
 SPECIFICATION Spec
 INVARIANTS Emit
